@@ -269,7 +269,11 @@ def script(
     outputs = map_nested_value(preprocess_output, outputs)
 
     # Stage inputs.
-    command_parts.extend(input.render_stage(as_mount) for input in iter_nested_value(inputs))
+    command_parts.extend(
+        input.render_stage(as_mount)
+        for input in iter_nested_value(inputs)
+        if isinstance(input, Staging)
+    )
 
     # User command.
     if isinstance(command, list):
